@@ -137,7 +137,7 @@ func ruleC03FormatTables(c *Ctx) {
 				"default arm returns an error", "no default arm returning an error: an unknown "+label+" value is silently accepted")
 		})
 	}
-	if nsw < 14 {
+	if nsw < half(14) {
 		c.unresolved("only %d format/level switches found (expected >= 14)", nsw)
 	}
 	// suffix agreement
@@ -322,7 +322,7 @@ func ruleC03TwoPass(c *Ctx) {
 	}
 	counterBytes := c.field("internal/ioext", "CounterWriter", "BytesRead")
 	ws := contentWriters(c, p)
-	if len(ws) < 2 {
+	if len(ws) < half(2) {
 		c.unresolved("only %d functions in pkg/operations stream content through Compress (expected archive and Update)", len(ws))
 	}
 	for _, f := range ws {
@@ -679,7 +679,7 @@ func ruleC03FinishOrder(c *Ctx) {
 			}
 			check(nd, what)
 		}
-		if n < 3 {
+		if n < half(3) {
 			c.unresolved("only %d finish-order checkpoints found in %s", n, f.Name)
 		}
 	}
